@@ -214,3 +214,25 @@ _replay.GENERATORS.update({
     'segwit_encode_ref': lambda rng: {'hrp': rng.choice(['bc', 'tb', 'bcrt']), 'witver': 0,
                                       'witprog': {'__bytes__': list(_rnd(rng, rng.choice([20, 32]))), 'cls': 'builtins:bytes'}},
 })
+
+
+# ---- constructors that take their version from the selected chain at call time -----------------------
+@contract('bitcoin.wallet:P2PKHBitcoinAddress.from_bytes', name='p2pkh_from_bytes_default', prop=P)
+def p2pkh_from_bytes_default(cls: Const(P2PKHBitcoinAddress), data: Bytes(len=20)):
+    """without an explicit version the address gets the prefix of the chain selected NOW (not at import)"""
+    option(chains=True)
+    ensures(typeis(result, P2PKHBitcoinAddress) and result == data and result.nVersion == chain_pubkey_ver(CHAIN))
+
+
+@contract('bitcoin.wallet:P2SHBitcoinAddress.from_bytes', name='p2sh_from_bytes_default', prop=P)
+def p2sh_from_bytes_default(cls: Const(P2SHBitcoinAddress), data: Bytes(len=20)):
+    option(chains=True)
+    ensures(typeis(result, P2SHBitcoinAddress) and result == data and result.nVersion == chain_script_ver(CHAIN))
+
+
+@contract('bitcoin.wallet:P2PKHBitcoinAddress.from_pubkey', name='p2pkh_from_pubkey', prop=P)
+def p2pkh_from_pubkey(cls: Const(P2PKHBitcoinAddress), pubkey: Bytes, accept_invalid: Const(True)):
+    """the address of a public key is the HASH160 of its bytes under the selected chain's prefix"""
+    option(chains=True)
+    ensures(typeis(result, P2PKHBitcoinAddress) and result == hash160(pubkey)
+            and result.nVersion == chain_pubkey_ver(CHAIN))
